@@ -120,6 +120,19 @@ def item_digests(terms, coord_perm=None, creation_order=None, after_failed_reque
             A.outcome(lambda: Derivative(smx.Multiply(smx.Exponential(smx.Constant(1000)), smx.Variable("x"))).as_expression())
             A.outcome(lambda: smx.Logarithm(smx.Constant(-1)).at(Point()))
             A.outcome(lambda: smx.Variable("x").at(Point()))
+    # one more item (computed before the battery, reported last): a sum of 700 terms written with +.  The forward rule
+    # needs two interpreter frames per level, so on the pinned tree a late Partial.at answers RecursionError whatever
+    # else is on the stack (1400 > 1000); the outcome class must not depend on the configuration either
+    X = smx.Variable("x")
+    deep = X
+    for _ in range(700):
+        deep = deep + X
+    dobs = []
+    for label, thunk in (("P.late", lambda: Partial(deep, "x").at(Point(x=0.5))),
+                         ("D.late", lambda: Derivative(deep).at(0.5))):
+        o = A.outcome(thunk)
+        dobs.append((label,) + tuple(str(u) for u in o[:2]))
+    deep_digest = hashlib.sha256(json.dumps(dobs).encode()).hexdigest()[:16]
     if creation_order:
         for name in creation_order:       # "the order in which variables were first created"
             smx.Variable(name)
@@ -164,18 +177,7 @@ def item_digests(terms, coord_perm=None, creation_order=None, after_failed_reque
             except Exception as ex:  # noqa: BLE001
                 obs.append(("repr.LocatedDifferential", type(ex).__name__))
         out.append(hashlib.sha256(json.dumps(obs).encode()).hexdigest()[:16])
-    # one more item: an expression deeper than the interpreter's recursion limit (x + x + ... 1200 terms): the outcome
-    # class of every route (RecursionError on the pinned tree) must not depend on the configuration either
-    X = smx.Variable("x")
-    deep = X
-    for _ in range(1200):
-        deep = deep + X
-    obs = []
-    for label, thunk in (("at", lambda: deep.at(Point(x=0.5))), ("P.late", lambda: Partial(deep, "x").at(Point(x=0.5))),
-                         ("LD", lambda: LocatedDifferential(deep, Point(x=0.5)).component("x"))):
-        o = A.outcome(thunk)
-        obs.append((label,) + tuple(str(u) for u in o[:2]))
-    out.append(hashlib.sha256(json.dumps(obs).encode()).hexdigest()[:16])
+    out.append(deep_digest)
     return out
 
 
@@ -413,8 +415,8 @@ def run_c18(tier, seed):
         if bad:
             i = bad[0]
             if i >= len(terms):
-                st.violation({"why": f"configuration {label}: the outcome of evaluating / differentiating x + x + ... + x (1200 terms, "
-                                     f"deeper than the recursion limit) differs from the reference configuration", "config": label})
+                st.violation({"why": f"configuration {label}: the outcome of evaluating / differentiating x + x + ... + x ("
+                                     f"700 terms, beyond the recursion limit for the forward rule) differs from the reference configuration", "config": label})
             else:
                 st.violation({"why": f"configuration {label}: {len(bad)} battery items give different results than the "
                                      f"reference configuration, first: {M.show(terms[i])[:300]}",
